@@ -3,7 +3,7 @@ Before the fix: AttributeError / ValueError / TypeError; after: JSONSerializatio
 from krrood.adapters.json_serializer import from_json, JSONSerializationError, JSON_TYPE_NAME
 
 bad = 0
-for tag in [5, True, ["a.b"], {"a": 1}, 1.5, ".Foo", "..Foo", "os.path", "json.dumps", "math.pi", "typing.T", "sys.path", "a.", "os.."]:
+for tag in [5, True, ["a.b"], {"a": 1}, 1.5, ".Foo", "..Foo", "os.path", "json.dumps", "math.pi", "typing.T", "sys.path", "a.", "os..", "krrood.adapters.json_serializer.SubclassJSONSerializer"]:
     try:
         r = from_json({JSON_TYPE_NAME: tag})
         print(repr(tag), "-> returned", type(r)); bad += 1
